@@ -105,6 +105,17 @@ func verifWBDecode(w *batchWriter, e int, ident func(e, k int, iov iovec) int) V
 // runs WriteBatch and reports every sendFn invocation. After the script is used up every call answers
 // (0, ENOBUFS): a per-entry rejection.
 func VerifWriteBatch(isV4, gso bool, maxSegs, capN int, bufs [][]byte, addrs []netip.AddrPort, script []VerifWBOutcome) (res VerifWBResult) {
+	return VerifWriteBatchK(isV4, gso, maxSegs, capN, bufs, addrs, script, 0)
+}
+
+// VerifGsoMaxSegments / VerifParseRelease expose the kernel-release gate prepareGSO uses for w.maxGSOSegments.
+func VerifGsoMaxSegments(release string) int      { return gsoMaxSegments(release) }
+func VerifParseRelease(release string) (int, int) { return parseRelease(release) }
+
+// VerifWriteBatchK is VerifWriteBatch with a kernel that additionally refuses (EINVAL) every UDP_SEGMENT entry
+// carrying more than kernelSegs segments (0: no such limit), the way udp_send_skb does: sendmmsg stops at that
+// entry, reporting the entries before it, or the error if it is the first one.
+func VerifWriteBatchK(isV4, gso bool, maxSegs, capN int, bufs [][]byte, addrs []netip.AddrPort, script []VerifWBOutcome, kernelSegs int) (res VerifWBResult) {
 	w := &batchWriter{fd: -1, isV4: isV4, l: slog.New(slog.DiscardHandler)}
 	w.gsoSupported = gso
 	w.maxGSOSegments = maxSegs
@@ -149,7 +160,23 @@ func VerifWriteBatch(isV4, gso bool, maxSegs, capN int, bufs [][]byte, addrs []n
 		if sent > n {
 			sent = n
 		}
-		call := VerifWBCall{Start: start, N: n, Sent: sent, Errno: item.Errno}
+		errno := item.Errno
+		if kernelSegs > 0 {
+			for j := 0; j < n && start+j < len(w.msgs); j++ {
+				h := &w.msgs[start+j].Hdr
+				if h.Control != nil && int(h.Iovlen) > kernelSegs {
+					if j == 0 {
+						if sent > 0 || errno == 0 {
+							sent, errno = -1, int(unix.EINVAL)
+						}
+					} else if sent > j {
+						sent = j
+					}
+					break
+				}
+			}
+		}
+		call := VerifWBCall{Start: start, N: n, Sent: sent, Errno: errno}
 		for e := start; e < start+n && e < len(w.msgs); e++ {
 			ve := decode(e)
 			if old, ok := last[e]; !ok || !verifWBSame(old, ve) {
@@ -158,8 +185,8 @@ func VerifWriteBatch(isV4, gso bool, maxSegs, capN int, bufs [][]byte, addrs []n
 			}
 		}
 		res.Calls = append(res.Calls, call)
-		if item.Errno != 0 {
-			return sent, &net.OpError{Op: "sendmmsg", Err: unix.Errno(item.Errno)}
+		if errno != 0 {
+			return sent, &net.OpError{Op: "sendmmsg", Err: unix.Errno(errno)}
 		}
 		return sent, nil
 	}
